@@ -49,8 +49,17 @@ def check_events(ctx, p, m0, m, n_expected, what, tol=TOL):
         ctx.check(np.all(np.abs(kin.mass2(a) - mi * mi) <= tol * np.maximum(e2, m0 * m0 * 1e-6)), "mass_shell", "%s: max |E^2-p^2-m^2|/E^2 = %.3e for m=%g" % (what, float(np.max(np.abs(kin.mass2(a) - mi * mi) / e2)), mi))
         ctx.check(np.all(a[:, 0] >= mi * (1 - 1e-12)), "energy_positive", "%s" % what)
     tot = sum(arr)
+    # conditioning: an event with a nearly vanishing pair mass was boosted with gamma ~ m0/m_pair, and rounding of
+    # order eps*gamma is the floating-point limit of any sequential generator (matters for massless daughters only)
+    if len(arr) >= 3:
+        mmin = np.full(len(tot), np.inf)
+        for i in range(len(arr)):
+            for j in range(i + 1, len(arr)):
+                mmin = np.minimum(mmin, np.sqrt(np.maximum(kin.mass2(arr[i] + arr[j]), 0.0)))
+        tol = tol * np.maximum(1.0, 1e-2 * m0 / np.maximum(mmin, 1e-300))
+        tol = np.minimum(tol, 1e-7)
     ctx.check(np.all(np.abs(tot[:, 0] - m0) <= tol * m0), "energy_conservation", "%s: max |sum E - m0|/m0 = %.3e" % (what, float(np.max(np.abs(tot[:, 0] - m0)) / m0)))
-    ctx.check(np.all(np.abs(tot[:, 1:]) <= tol * m0), "momentum_conservation", "%s: max |sum p|/m0 = %.3e" % (what, float(np.max(np.abs(tot[:, 1:])) / m0)))
+    ctx.check(np.all(np.abs(tot[:, 1:]) <= (tol[:, None] if np.ndim(tol) else tol) * m0), "momentum_conservation", "%s: max |sum p|/m0 = %.3e" % (what, float(np.max(np.abs(tot[:, 1:])) / m0)))
     return arr
 
 
